@@ -133,6 +133,7 @@ func fill(m protoreflect.Message, c *construction) {
 		switch {
 		case fd.IsList():
 			l := cur.Mutable(fd).List()
+			l.Append(l.NewElement()) // an empty sibling first: the map sits in the second of two list elements
 			e := l.NewElement()
 			l.Append(e)
 			cur = enum.Rewrap(l.Get(l.Len() - 1).Message())
